@@ -248,15 +248,15 @@ def parse_model(line):
 
 
 def make_states(rng, times, g, normal, offset):
-    """6-D states with normal·x − offset == g exactly (normal[lead] == 1), other coordinates small dyadics that make
-    the projected point move with time."""
+    """6-D states with normal·x − offset == g exactly (normal[lead] == 1); the other coordinates are small dyadics: some
+    monotone in time, some returning to earlier values (so that the projected point may revisit an earlier hit)."""
     lead = [i for i, v in enumerate(normal) if v == 1][0]
     states = []
     for k, (t, gv) in enumerate(zip(times, g)):
         x = [F(0)] * 6
         for i in range(6):
             if i != lead:
-                x[i] = [t, F(k * k, 4), 2 * t - 1, F(k, 2) - t, F(1, 2) + k, -t][i]
+                x[i] = [t, F(k * k, 4), F((k * k) % 3, 2), 2 * t - 1, F(1, 2) + (k % 2), -t][i]
         x[lead] = gv + offset - sum(normal[i] * x[i] for i in range(6) if i != lead)
         states.append(x)
     return states
@@ -396,8 +396,499 @@ def correspondence(ctx, backend):
     return cases
 
 
+# --------------------------------------------------------------------------- translation validation of the traces
+
+
+def validate_traces(ctx, tr):
+    """The traced DAGs evaluated in floats must agree with the *compiled / real* functions on random inputs."""
+    from hiten.algorithms.poincare import utils as U
+    from hiten.algorithms.poincare.synodic import backend as B
+    rng = ctx.rng
+    n = 300 if ctx.thorough() else 100
+    worst = 0.0
+
+    def bad(name, msg):
+        ctx.broken.append(("trace-validation:" + name, msg))
+        ctx.obligations["trace-validation:" + name] = False
+
+    for k in range(n):
+        vals = [rng.uniform(-0.5, 1.5)] + [rng.uniform(-2, 2) for _ in range(4)] + [rng.uniform(0.01, 2)]
+        env = dict(zip(HVARS, vals))
+        for nm, fn in (("hermite", U._hermite_scalar), ("hermiteDer", U._hermite_der)):
+            m = T.evalf(tr[nm], env)
+            c = float(fn(*vals))
+            err = abs(m - c) / (1 + abs(c))
+            worst = max(worst, err)
+            ctx.traces_validated += 1
+            if not err <= 1e-12:
+                return bad(nm, "trace %r vs compiled %r at %r" % (m, c, vals))
+    # _refine_hits_cubic on concrete data (interior / boundary segments; 0 and 1 Newton updates)
+    done = 0
+    tries = 0
+    while done < n and tries < 50 * n:
+        tries += 1
+        tag, kk, N = [("I", 1, 4), ("L", 0, 3), ("R", 1, 3), ("B", 0, 2)][tries % 4]
+        ts = np.cumsum([rng.uniform(0.2, 1.0) for _ in range(N)])
+        gs = np.array([rng.uniform(-2, 2) for _ in range(N)])
+        xs = np.array([[rng.uniform(-1, 1)] for _ in range(N)])
+        gs[kk] = -abs(gs[kk]) - 0.1
+        gs[kk + 1] = abs(gs[kk + 1]) + 0.1
+        a = gs[kk] / (gs[kk] - gs[kk + 1])
+        env = {"s": a}
+        for i in range(N):
+            env["t%d" % i], env["g%d" % i], env["x%d" % i] = ts[i], gs[i], xs[i, 0]
+        th0, xh0 = B._refine_hits_cubic(ts, xs, gs, np.array([kk]), np.array([a]), max_iter=0)
+        th1, xh1 = B._refine_hits_cubic(ts, xs, gs, np.array([kk]), np.array([a]), max_iter=1)
+        m_t0 = T.evalf(tr["cubTime0" + tag], env)
+        m_x0 = T.evalf(tr["cubState0" + tag], env)
+        m_t1 = T.evalf(tr["cubTime1" + tag], env)
+        s1 = (m_t1 - ts[kk]) / (ts[kk + 1] - ts[kk])
+        if not (0.0 < s1 < 1.0):
+            continue        # the real run clamped: different path from the traced one
+        for nm, m, c in (("cubTime0" + tag, m_t0, th0[0]), ("cubState0" + tag, m_x0, xh0[0][0]), ("cubTime1" + tag, m_t1, th1[0])):
+            err = abs(m - c) / (1 + abs(c))
+            worst = max(worst, err)
+            ctx.traces_validated += 1
+            if not err <= 1e-11:
+                return bad(nm, "trace %r vs real %r (times %r, g %r, x %r, alpha %r)" % (m, float(c), ts.tolist(), gs.tolist(), xs.ravel().tolist(), a))
+        done += 1
+    for k in range(n):
+        g0, g1 = -rng.uniform(0.1, 2), rng.uniform(0.1, 2)
+        cr, al = B._crossing_indices_and_alpha(np.array([g0]), np.array([g1]), on_mask=np.zeros(1, dtype=bool),
+                                               direction=[None, 1][k % 2])
+        m = T.evalf(tr[["alphaAny", "alphaPos"][k % 2]], {"g0": g0, "g1": g1})
+        t0, t1, x0, x1 = rng.uniform(0, 1), rng.uniform(1, 2), rng.uniform(-1, 1), rng.uniform(-1, 1)
+        th, xh = B._refine_hits_linear(np.array([t0]), np.array([t1]), np.array([[x0]]), np.array([[x1]]), np.array([0]), al)
+        env = {"a": al[0], "t0": t0, "t1": t1, "x0": x0, "x1": x1}
+        for nm, mm, c in (("alpha", m, al[0]), ("linTime", T.evalf(tr["linTime"], env), th[0]), ("linState", T.evalf(tr["linState"], env), xh[0][0])):
+            err = abs(mm - c) / (1 + abs(c))
+            worst = max(worst, err)
+            ctx.traces_validated += 1
+            if not err <= 1e-12:
+                return bad(nm, "trace %r vs real %r" % (mm, float(c)))
+    ctx.obligations["trace-validation"] = True
+    ctx.extra["trace_validation_worst_rel_err"] = worst
+
+
+# --------------------------------------------------------------------------- independent reading of the property
+
+
+def _is_small(q):
+    return q <= F(1, 2 ** 20)
+
+
+def oracle(case, real, backend=None):
+    """Independent check of the property on the *real* output of one exact-arithmetic case (linear interpolation).
+    Returns None or (key, message)."""
+    g = case.g()
+    ts = case.times
+    N = len(ts)
+    d = case.direction
+    hits = [(F(t), [F(v) for v in x], [F(v) for v in p]) for t, x, p in real]
+    # point2d is the projection of the state
+    for t, x, p in hits:
+        if p != [x[case.pc[0]], x[case.pc[1]]]:
+            return ("point2d-not-projection", "point2d %r is not the projection of the state" % ([float(v) for v in p],))
+    # ordered in time, strictly, and consecutive reported hits are not duplicates of each other
+    for (ta, xa, pa), (tb, xb, pb) in zip(hits, hits[1:]):
+        if not ta < tb:
+            return ("hits-not-time-ordered", "hit times not strictly increasing: %r then %r" % (float(ta), float(tb)))
+        if abs(tb - ta) <= case.ttol or (pb[0] - pa[0]) ** 2 + (pb[1] - pa[1]) ** 2 <= case.ptol ** 2:
+            return ("duplicate-hit-reported", "consecutive hits at t=%r and t=%r are duplicates under the dedup rule" % (float(ta), float(tb)))
+
+    def weak(k):
+        a, b = g[k], g[k + 1]
+        if a == b:
+            return False
+        if d is None:
+            return a * b <= 0
+        return (a <= 0 <= b) if d == 1 else (a >= 0 >= b)
+
+    def strict(k):
+        a, b = g[k], g[k + 1]
+        if d is None:
+            return a * b < 0
+        return (a < 0 < b) if d == 1 else (a > 0 > b)
+
+    gv = lambda x: sum(a * b for a, b in zip(x, case.normal)) - case.offset
+    for t, x, p in hits:
+        if not ts[0] <= t <= ts[-1]:
+            return ("hit-outside-trajectory", "hit time %r outside the sampled interval" % float(t))
+        ok = False
+        for k in range(N - 1):
+            if not ts[k] <= t <= ts[k + 1]:
+                continue
+            if t == ts[k] and x == case.states[k] and abs(g[k]) < case.tol:
+                ok = True       # a sample lying on the surface
+            if weak(k):
+                lam = (t - ts[k]) / (ts[k + 1] - ts[k])
+                xi = [a + lam * (b - a) for a, b in zip(case.states[k], case.states[k + 1])]
+                if xi == x and gv(x) == 0:
+                    ok = True   # on the plane, on the chord of a bracketing segment with a compatible sign change
+        if not ok:
+            return ("hit-not-sound", "hit at t=%r, g(state)=%r is neither an on-surface sample nor the zero of the chord of a "
+                    "segment with a direction-compatible sign change" % (float(t), float(gv(x))))
+    if case.maxhits is not None:
+        if len(hits) > max(1, case.maxhits):
+            return ("max-hits-exceeded", "%d hits reported with max_hits_per_traj=%r" % (len(hits), case.maxhits))
+        return None
+    def excused(te, xe):
+        """the stated dedup rule: the expected hit is a duplicate of the last reported hit before it"""
+        prev = [h for h in hits if h[0] < te]
+        if not prev:
+            return False
+        tp, xp, pp = prev[-1]
+        pe = [xe[case.pc[0]], xe[case.pc[1]]]
+        return abs(te - tp) <= case.ttol or (pe[0] - pp[0]) ** 2 + (pe[1] - pp[1]) ** 2 <= case.ptol ** 2
+
+    def chord_zero(k):
+        lam = g[k] / (g[k] - g[k + 1])
+        return ts[k] + lam * (ts[k + 1] - ts[k]), [a + lam * (b - a) for a, b in zip(case.states[k], case.states[k + 1])]
+
+    if _is_small(case.ttol) and _is_small(case.ptol):
+        for k in range(N - 1):
+            if strict(k) and abs(g[k]) >= case.tol and abs(g[k + 1]) >= case.tol:
+                cnt = sum(1 for t, x, p in hits if ts[k] < t < ts[k + 1])
+                if cnt == 0 and excused(*chord_zero(k)):
+                    continue
+                if cnt != 1:
+                    return ("crossing-missed" if cnt == 0 else "crossing-doubled",
+                            "segment %d [%r,%r] has a strict sign change %r -> %r compatible with direction %r but %d hits lie "
+                            "inside it" % (k, float(ts[k]), float(ts[k + 1]), float(g[k]), float(g[k + 1]), d, cnt))
+            elif not weak(k):
+                cnt = sum(1 for t, x, p in hits if ts[k] < t < ts[k + 1])
+                if cnt:
+                    return ("spurious-hit", "segment %d has no direction-compatible sign change (%r -> %r, direction %r) but %d "
+                            "hits lie strictly inside it" % (k, float(g[k]), float(g[k + 1]), d, cnt))
+            if 1 <= k and g[k] == 0 and g[k - 1] * g[k + 1] < 0 and (d is None or (g[k + 1] > 0) == (d == 1)):
+                cnt = sum(1 for t, x, p in hits if t == ts[k])
+                if cnt == 0 and excused(ts[k], case.states[k]):
+                    continue
+                if cnt != 1:
+                    return ("crossing-through-sample-missed" if cnt == 0 else "crossing-doubled",
+                            "the section function passes through zero exactly at sample %d (%r -> 0 -> %r, direction %r) but %d hits "
+                            "are reported at t=%r" % (k, float(g[k - 1]), float(g[k + 1]), d, cnt, float(ts[k])))
+            if d is None and abs(g[k]) < case.tol:
+                cnt = sum(1 for t, x, p in hits if t == ts[k])
+                if cnt == 0 and excused(ts[k], case.states[k]):
+                    continue
+                if cnt != 1:
+                    return ("on-surface-sample-missed", "sample %d lies on the surface (|g|=%r < tol) but %d hits are reported at its time"
+                            % (k, float(abs(g[k])), cnt))
+    return None
+
+
+def oracle_sweep(ctx, backend, cases, report=True):
+    """Run the independent oracle on the real output of every exact linear case."""
+    found = {}
+    n = 0
+    for c in cases:
+        if not c.exact or c.cubic:
+            continue
+        real = run_real(backend, c)
+        n += 1
+        r = oracle(c, real)
+        if r and r[0] not in found:
+            found[r[0]] = (c, r[1], real)
+    ctx.extra["oracle_cases"] = n
+    if report:
+        for key, (c, msg, real) in found.items():
+            ctx.violation(key, msg, {"input": c.replay(), "observed_hits": [[t] + x for t, x, p in real], "expected": msg})
+    return found
+
+
+def refine_endpoint_check(ctx, backend):
+    """A trajectory that ends exactly on the section: the crossing of the last segment must be reported for every
+    segment_refine (it is for r = 0)."""
+    ts = [F(0), F(1)]
+    states = [[F(-1), F(0), F(0), F(0), F(0), F(0)], [F(0), F(1), F(0), F(0), F(1), F(0)]]
+    rs = list(range(0, 130)) if ctx.thorough() else [0, 1, 2, 3, 5, 6, 10, 20, 47, 48, 49, 50, 51, 64, 97, 100]
+    missing = []
+    for r in rs:
+        for d in (None, 1):
+            c = Case(ts, states, NORMALS[0][0], NORMALS[0][1], d, F(1, 2 ** 40), F(1, 2 ** 30), F(1, 2 ** 40), None, (1, 4),
+                     False, r, 4, False, tag="trajectory ending on the section, segment_refine=%d" % r)
+            real = run_real(backend, c)
+            ctx.case(("refine-endpoint", r, d), kind="refine-endpoint")
+            if len(real) != 1 or real[0][0] != 1.0:
+                missing.append((r, d, c, real))
+    if missing and any(m[0] in (0, 1, 3) for m in missing):
+        r, d, c, real = missing[0]
+        ctx.violation("final-sample-crossing-missed", "segment_refine=%d, direction=%r: the crossing at the final sample (g: -1 -> 0) is not reported" % (r, d),
+                      {"input": c.replay(), "observed_hits": real, "expected": "one hit at t=1.0"})
+    elif missing:
+        r, d, c, real = missing[0]
+        ctx.violation("refine-step-rounding-last-sample",
+                      "segment_refine=%s: the crossing at the final sample (g: -1 -> 0) is not reported although it is for "
+                      "segment_refine=0 ((r+1)*(1/(r+1)) < 1 in floating point, so the last sub-interval stops short of the sample)"
+                      % sorted({m[0] for m in missing}),
+                      {"input": c.replay(), "observed_hits": real, "expected": "one hit at t=1.0",
+                       "all_failing_refine_values": sorted({m[0] for m in missing})})
+
+
+# --------------------------------------------------------------------------- numerical shell: convergence
+
+
+def _curve(rng):
+    a = [rng.uniform(0.3, 1.0) for _ in range(6)]
+    w = [rng.uniform(0.6, 1.6) for _ in range(6)]
+    p = [rng.uniform(0, 2 * math.pi) for _ in range(6)]
+    b = [rng.uniform(-0.1, 0.1) for _ in range(6)]
+    x = lambda t: np.array([a[i] * np.cos(w[i] * t + p[i]) + b[i] * t for i in range(6)])
+    dx = lambda t: np.array([-a[i] * w[i] * np.sin(w[i] * t + p[i]) + b[i] for i in range(6)])
+    ddx = lambda t: np.array([-a[i] * w[i] ** 2 * np.cos(w[i] * t + p[i]) for i in range(6)])
+    return x, dx, ddx, {"a": a, "w": w, "p": p, "b": b}
+
+
+def _roots(gf, T_end, n=20000):
+    from scipy.optimize import brentq
+    tt = np.linspace(0, T_end, n + 1)
+    gg = gf(tt)
+    out = []
+    for i in range(n):
+        if gg[i] == 0.0 or gg[i] * gg[i + 1] < 0:
+            out.append(brentq(lambda t: float(gf(t)), tt[i], tt[i + 1], xtol=1e-15, rtol=8.9e-16))
+    return np.array(out)
+
+
+def convergence(ctx, backend):
+    """Analytic curves with known crossings: error of hit time/state versus sampling, linear ~2nd order, cubic >= 3rd
+    order on uniform grids, and every hit within the linear-interpolation error bound of its interval."""
+    rng = ctx.rng
+    ncurves = 6 if ctx.thorough() else 3
+    report = []
+    ci = -1
+    tries = 0
+    while len(report) < 2 * ncurves and tries < 6 * ncurves:
+        tries += 1
+        ci += 1
+        x, dx, ddx, params = _curve(rng)
+        nrm = np.array([rng.uniform(-1, 1) for _ in range(6)])
+        nrm /= np.linalg.norm(nrm)
+        off = rng.uniform(-0.1, 0.1)
+        T_end = 40.0
+        gf = lambda t: np.tensordot(nrm, x(np.asarray(t)), axes=(0, 0)) - off
+        dgf = lambda t: np.tensordot(nrm, dx(np.asarray(t)), axes=(0, 0))
+        ddgf = lambda t: np.tensordot(nrm, ddx(np.asarray(t)), axes=(0, 0))
+        roots = _roots(gf, T_end, 40000)
+        # keep transversal, well separated roots away from the ends
+        good = [r for r in roots if abs(dgf(r)) > 0.15 and 0.3 < r < T_end - 0.3]
+        if len(good) < 8 or len(roots) > 60:
+            continue
+        for uniform in (True, False):
+            errs = {"linear": [], "cubic": []}
+            Ns = [401, 801, 1601, 3201]
+            for N in Ns:
+                if uniform:
+                    ts = np.linspace(0, T_end, N)
+                else:       # smooth non-uniform grid, local step ratio up to 3
+                    u = np.linspace(0, 1, N)
+                    ts = T_end * (u + 0.5 * np.sin(2 * np.pi * 7 * u) / (2 * np.pi * 7))
+                    ts[-1] = T_end
+                st = x(ts).T.copy()
+                for kind in ("linear", "cubic"):
+                    for direction in (None,):
+                        hits = backend.detect_on_trajectory(ts, st, normal=nrm, offset=off, interp_kind=kind, direction=direction,
+                                                            segment_refine=0, newton_max_iter=8, dedup_point_tol=0.0)
+                        ht = np.array([h.time for h in hits])
+                        ctx.case(("conv", ci, uniform, N, kind), kind="convergence")
+                        if len(ht) != len(roots):
+                            ctx.violation("analytic-crossing-count", "%d hits for %d exact crossings of an analytic curve (%s, N=%d)" % (len(ht), len(roots), kind, N),
+                                          {"curve": params, "normal": nrm.tolist(), "offset": off, "N": N, "uniform": uniform,
+                                           "interp_kind": kind, "exact_crossings": roots.tolist(), "hit_times": ht.tolist()})
+                            return
+                        esum = 0.0
+                        for r in good:
+                            j = int(np.argmin(np.abs(ht - r)))
+                            e = abs(ht[j] - r)
+                            k = int(np.searchsorted(ts, r) - 1)
+                            h = ts[k + 1] - ts[k]
+                            tt = np.linspace(ts[max(k - 1, 0)], ts[min(k + 2, N - 1)], 50)
+                            bound = h * h / 8 * np.max(np.abs(ddgf(tt))) / np.min(np.abs(dgf(tt)))
+                            xs = hits[j].state
+                            ex = float(np.max(np.abs(xs - x(r))))
+                            xbound = float(np.max(np.abs(dx(r)))) * bound + h * h / 8 * float(np.max(np.abs(ddx(tt))))
+                            # the property: no worse than the linear-interpolation error of the interval (margin 2 + rounding)
+                            if not (e <= 2.0 * bound + 1e-13 and ex <= 2.0 * xbound + 1e-13):
+                                ctx.violation("hit-error-exceeds-linear-bound:" + kind,
+                                              "%s hit near t=%.6f: time error %.3e (bound %.3e), state error %.3e (bound %.3e)" % (kind, r, e, bound, ex, xbound),
+                                              {"curve": params, "normal": nrm.tolist(), "offset": off, "N": N, "uniform": uniform,
+                                               "interp_kind": kind, "exact_crossing": float(r), "hit_time": float(ht[j]),
+                                               "linear_interpolation_bound": float(bound)})
+                                return
+                            esum += e
+                        errs[kind].append(esum / len(good))
+            p_lin = math.log2(errs["linear"][0] / errs["linear"][-1]) / 3
+            p_cub = math.log2(max(errs["cubic"][0], 1e-300) / max(errs["cubic"][-1], 1e-16)) / 3
+            report.append({"curve": ci, "uniform": uniform, "err_linear": errs["linear"], "err_cubic": errs["cubic"],
+                           "order_linear": p_lin, "order_cubic": p_cub})
+            rep = {"curve": params, "normal": nrm.tolist(), "offset": off, "Ns": Ns, "uniform": uniform, "errors": errs}
+            # mean error over >= 8 crossings, three octaves (observed scatter +-0.25).  Central-difference slopes make the
+            # Hermite interpolant third-order accurate, so the expected cubic order is 3; a wrong interpolation formula
+            # (e.g. the former _hermite_der) gives order 2 and errors *above* the linear ones
+            if not 1.5 <= p_lin <= 2.6:
+                ctx.violation("linear-order", "linear interpolation converges at order %.2f (expected 2)" % p_lin, rep)
+                return
+            if uniform and errs["cubic"][0] > 1e-10 and not p_cub >= 2.5:
+                ctx.violation("cubic-order", "cubic interpolation converges at order %.2f on a uniform grid (expected >= 3)" % p_cub, rep)
+                return
+            if not errs["cubic"][-1] <= 0.5 * errs["linear"][-1]:
+                ctx.violation("cubic-worse-than-linear", "cubic error %.3e exceeds linear error %.3e at N=%d" % (errs["cubic"][-1], errs["linear"][-1], Ns[-1]), rep)
+                return
+    ctx.extra["convergence"] = report
+
+
+def crtbp_convergence(ctx, backend):
+    """A CR3BP trajectory (real propagator): hits of the y = 0 section versus sampling density."""
+    from hiten.algorithms.dynamics import rtbp
+    from hiten.algorithms.dynamics.base import _propagate_dynsys
+    mu = 0.0121505856
+    s0 = np.array([0.82, 0.02, 0.05, 0.03, 0.16, 0.02])
+    T_end = 12.0
+    nrm = np.array([0.0, 1.0, 0.0, 0.0, 0.0, 0.0])
+    ref_N = 12801
+    sol = _propagate_dynsys(rtbp.rtbp_dynsys(mu), s0, 0.0, T_end, forward=1, steps=ref_N, method="fixed", order=8)
+    # reference crossings independent of the code under test: roots of SciPy's cubic spline through the fine samples
+    from scipy.interpolate import CubicSpline
+    rt = np.sort(np.asarray(CubicSpline(np.asarray(sol.times), np.asarray(sol.states)[:, 1]).roots(extrapolate=False), dtype=float))
+    rt = rt[(rt > 1e-9) & (rt < T_end - 1e-9)]
+    errs = {"linear": [], "cubic": []}
+    Ns = [401, 801, 1601]
+    for N in Ns:
+        step = (ref_N - 1) // (N - 1)
+        ts = np.asarray(sol.times)[::step]
+        st = np.asarray(sol.states)[::step]
+        for kind in ("linear", "cubic"):
+            hits = backend.detect_on_trajectory(ts, st, normal=nrm, offset=0.0, interp_kind=kind, newton_max_iter=8, dedup_point_tol=0.0)
+            ht = np.array([h.time for h in hits])
+            ctx.case(("crtbp", N, kind), kind="crtbp-convergence")
+            if len(ht) != len(rt):
+                ctx.violation("crtbp-crossing-count", "%d hits at N=%d (%s) but %d crossings at N=%d" % (len(ht), N, kind, len(rt), ref_N),
+                              {"mu": mu, "state0": s0.tolist(), "tf": T_end, "N": N, "interp_kind": kind, "hit_times": ht.tolist(), "reference": rt.tolist()})
+                return
+            errs[kind].append(float(np.mean(np.abs(ht - rt))))
+    p_lin = math.log2(errs["linear"][0] / errs["linear"][-1]) / 2
+    p_cub = math.log2(errs["cubic"][0] / max(errs["cubic"][-1], 1e-16)) / 2
+    ctx.extra["crtbp_convergence"] = {"n_crossings": len(rt), "errors": errs, "order_linear": p_lin, "order_cubic": p_cub}
+    rep = {"mu": mu, "state0": s0.tolist(), "tf": T_end, "Ns": Ns, "errors": errs, "section": "y=0"}
+    if len(rt) == 0:
+        return
+    # few crossings (6) and a lunar fly-by: wide windows; the broken derivative gave order ~2 and errors above linear
+    if not 1.5 <= p_lin <= 2.7:
+        ctx.violation("linear-order", "CR3BP trajectory: linear interpolation converges at order %.2f (expected 2)" % p_lin, rep)
+    elif errs["cubic"][0] > 1e-10 and not p_cub >= 2.6:
+        ctx.violation("cubic-order", "CR3BP trajectory: cubic interpolation converges at order %.2f (expected >= 3)" % p_cub, rep)
+    elif not errs["cubic"][-1] <= 0.2 * errs["linear"][-1]:
+        ctx.violation("cubic-worse-than-linear", "CR3BP trajectory: cubic error %.3e exceeds linear error %.3e" % (errs["cubic"][-1], errs["linear"][-1]), rep)
+
+
+# --------------------------------------------------------------------------- public path
+
+
+def public_path(ctx, backend):
+    """`SynodicMap.compute` must deliver what the backend delivers for the configured interpolation (default cubic)."""
+    try:
+        from hiten import System
+        from hiten.system.maps import SynodicMap
+        from hiten.system.orbits import GenericOrbit
+        sysm = System.from_bodies("earth", "moon")
+        l1 = sysm.get_libration_point(1)
+        s0 = np.array([l1.position[0] + 0.01, 0.0, 0.0, 0.0, 0.0, 0.0])
+        orbit = GenericOrbit(l1, initial_state=s0)
+        orbit.period = 2.5
+        orbit.propagate(steps=400)
+        smap = SynodicMap(orbit)
+        cfg_kind = getattr(smap.config.interp_kind, "interp_kind", smap.config.interp_kind)
+        res = smap.compute(section_axis="y", section_offset=0.0, plane_coords=("x", "vx"), direction=None)
+        ts, st = orbit.dynamics.trajectories[0].as_arrays() if hasattr(orbit.dynamics, "trajectories") else smap.trajectories()[0].as_arrays()
+        o = smap.options.refine
+        kw = dict(normal=[0, 1, 0, 0, 0, 0], offset=0.0, plane_coords=("x", "vx"), segment_refine=o.segment_refine,
+                  tol_on_surface=o.tol_on_surface, dedup_time_tol=o.dedup_time_tol, dedup_point_tol=o.dedup_point_tol,
+                  max_hits_per_traj=o.max_hits_per_traj, newton_max_iter=o.newton_max_iter, direction=None)
+        want = {k: np.array([h.time for h in backend.detect_on_trajectory(np.asarray(ts), np.asarray(st), interp_kind=k, **kw)])
+                for k in ("linear", "cubic")}
+        got = np.asarray(res.times if res.times is not None else [], dtype=float)
+        ctx.case(("public", cfg_kind), kind="public-path")
+        same = lambda a, b: len(a) == len(b) and (len(a) == 0 or float(np.max(np.abs(a - b))) == 0.0)
+        ctx.extra["public_path"] = {"configured_interp_kind": str(cfg_kind), "n_hits": int(len(got)),
+                                    "equals_backend_linear": bool(same(got, want["linear"])),
+                                    "equals_backend_cubic": bool(same(got, want["cubic"]))}
+        rep = {"system": "earth-moon L1", "initial_state": s0.tolist(), "period": 2.5, "steps": 400,
+               "call": "SynodicMap(orbit).compute(section_axis='y', section_offset=0.0, plane_coords=('x','vx'), direction=None)",
+               "configured_interp_kind": str(cfg_kind), "public_times": got.tolist(),
+               "backend_times_linear": want["linear"].tolist(), "backend_times_cubic": want["cubic"].tolist()}
+        if same(want["linear"], want["cubic"]):
+            return      # cannot discriminate on this trajectory
+        if not same(got, want[str(cfg_kind)]):
+            other = "linear" if str(cfg_kind) == "cubic" else "cubic"
+            if same(got, want[other]):
+                ctx.violation("public-path-interp-kind-ignored",
+                              "SynodicMap.compute is configured with interp_kind=%r but returns bit-for-bit the %s-interpolation hits "
+                              "(the RefineConfig object, not its string, reaches `interp_kind == \"cubic\"` in the backend)" % (cfg_kind, other), rep)
+            else:
+                ctx.violation("public-path-differs-from-backend", "SynodicMap.compute returns hits that differ from the backend's for the same options", rep)
+    except Exception as ex:  # API shape differs: a broken correspondence, not a pass
+        import traceback
+        ctx.broken.append(("public-path", traceback.format_exc()[-800:]))
+        ctx.obligations["public-path"] = False
+
+
+PROP_MODULES = ["HitenModel.Props.C15"]
+SRC_MODULES = ["HitenModel.Props.C15", "HitenModel.Gen.C15", "HitenModel.Core.C15", "HitenModel.Lemmas.C15",
+               "HitenModel.Lemmas.C15Gen", "HitenModel.Lemmas.C15Real", "HitenModel.Lemmas.REReal", "HitenModel.Core.RE"]
+
+
 def run(ctx):
     tr = gen(ctx)
+    ok = ctx.lean_build(PROP_MODULES)
+    if ok:
+        ctx.lean_audit(PROP_MODULES, SRC_MODULES)
+        if ctx.thorough():
+            ctx.leanchecker(PROP_MODULES)
     from hiten.algorithms.poincare.synodic.backend import _SynodicDetectionBackend
     backend = _SynodicDetectionBackend()
+    validate_traces(ctx, tr)
     cases = correspondence(ctx, backend)
+    # independent reading of the property on the real outputs: supporting evidence when everything holds, failing-input
+    # search when an obligation or the correspondence broke
+    oracle_sweep(ctx, backend, cases)
+    refine_endpoint_check(ctx, backend)
+    convergence(ctx, backend)
+    crtbp_convergence(ctx, backend)
+    public_path(ctx, backend)
+    ctx.rule = ("exact: every sign pattern in {-,0,+}^N (N<=6 quick / <=8 thorough, sampled above) with magnitudes {1,3} on dyadic "
+                "non-uniform grids x directions {None,+1,-1} x tol {2^-10,0,2} x dedup tolerances {0,2^-20,large} x max_hits x "
+                "segment_refine {0,1,3}; approx: random float trajectories, refine 0..6, cubic with 0..3 Newton updates; a case is "
+                "non-trivial when the detector reports at least one hit; distinct by (pattern, direction, refine, interpolation, tolerances)")
+    ctx.assumptions += [
+        "model arithmetic is exact (Q); the float code is compared exactly on dyadic inputs with dyadic quotients, to 1e-11 (linear) / 1e-9 (cubic) otherwise",
+        "sample times strictly increasing in the correspondence (division by t[k+1]-t[k-1] = 0 is not modelled); hits_ordered assumes non-decreasing times",
+        "the guard `s_hi > 1 + 1e-15` of the refine loop never fires in exact arithmetic and is not modelled",
+        "convergence orders (2 for linear, >=3 for cubic on uniform grids) are measured, not proved",
+    ]
+
+
+def replay(ctx, rec):
+    """Re-run one recorded failing detector call on the real code (exact cases go through the oracle again); anything else
+    re-runs the whole check."""
+    inp = (rec.get("replay") or {}).get("input")
+    if not inp:
+        return run(ctx)
+    from hiten.algorithms.poincare.synodic.backend import _SynodicDetectionBackend
+    backend = _SynodicDetectionBackend()
+    kw = inp["kwargs"]
+    pc = (COORD.index(kw["plane_coords"][0]), COORD.index(kw["plane_coords"][1]))
+    c = Case([F(t) for t in inp["times"]], [[F(v) for v in x] for x in inp["states"]], [F(v) for v in kw["normal"]],
+             F(kw["offset"]), kw["direction"], F(kw["tol_on_surface"]), F(kw["dedup_time_tol"]), F(kw["dedup_point_tol"]),
+             kw["max_hits_per_traj"], pc, kw["interp_kind"] == "cubic", int(kw["segment_refine"]), int(kw["newton_max_iter"]),
+             True, tag=inp.get("tag", "replay"))
+    real = run_real(backend, c)
+    ctx.log("replayed call returns hits (time, state):", [[t] + x for t, x, p in real])
+    ctx.case(("replay", c.tag), kind="replay")
+    if rec.get("key") in ("refine-step-rounding-last-sample", "final-sample-crossing-missed"):
+        if len(real) != 1 or real[0][0] != float(c.times[-1]):
+            ctx.violation(rec["key"], rec.get("what", ""), {"input": c.replay(), "observed_hits": real, "expected": "one hit at the final sample"})
+        return
+    r = oracle(c, real) if not c.cubic else None
+    if r:
+        ctx.violation(r[0], r[1], {"input": c.replay(), "observed_hits": [[t] + x for t, x, p in real], "expected": r[1]})
